@@ -842,6 +842,17 @@ func sameValue(a, b ssa.Value, d int) bool {
 				if fa, ok := x.X.(*ssa.FieldAddr); ok {
 					return !fieldEverStored(fa)
 				}
+				if cell := CellOf(x.X); cell != nil {
+					// two loads of one captured/local cell that this function never stores to
+					if refs := cell.Referrers(); refs != nil {
+						for _, r := range *refs {
+							if st, ok := r.(*ssa.Store); ok && st.Addr == cell {
+								return false
+							}
+						}
+					}
+					return true
+				}
 				return false
 			}
 			return sameValue(x.X, y.X, d+1)
